@@ -275,6 +275,8 @@ CONTAINERS = {
     "tuple": lambda vals: (tuple(float(v) for v in vals), [float(v) for v in vals]),
     "ndarray[f4]": lambda vals: (np.array(vals, dtype=np.float32), [float(np.float32(v)) for v in vals]),
     "ndarray[i4]": lambda vals: (np.array([int(v) for v in vals], dtype=np.int32), [float(int(v)) for v in vals]),
+    "ndarray[u2]": lambda vals: (np.array([abs(int(v)) for v in vals], dtype=np.uint16), [float(abs(int(v))) for v in vals]),
+    "ndarray[u1]": lambda vals: (np.array([abs(int(v)) % 200 for v in vals], dtype=np.uint8), [float(abs(int(v)) % 200) for v in vals]),
 }
 
 
@@ -289,7 +291,9 @@ def check_mixed_containers(res: Result, names, want, case):
         cols, expect = {}, {}
         for n in names:
             cols[n], expect[n] = CONTAINERS[assign[n]](rowvals[n])
-        for cname, build in (("array(dict)", lambda: vector.array(dict(cols))), ("zip", lambda: vector.zip({n: (ak.Array(c) if not isinstance(c, tuple) else ak.Array(list(c))) for n, c in cols.items()}))):
+        akcols = {n: (ak.Array(c) if not isinstance(c, tuple) else ak.Array(list(c))) for n, c in cols.items()}
+        for cname, build in (("array(dict)", lambda: vector.array(dict(cols))), ("zip", lambda: vector.zip(akcols)), ("Array(ak.zip)", lambda: vector.Array(ak.zip(akcols))),
+                             ("Array(ak.zip + uint8 extra)", lambda: vector.Array(ak.zip(dict(akcols, nhits=ak.Array(np.array([3, 0, 7], dtype=np.uint8))))))):
             res.states += 1
             res.transitions += 1
             res.traces += 1
@@ -305,6 +309,11 @@ def check_mixed_containers(res: Result, names, want, case):
                 res.violation(key + "|type", f"{cname} with columns {assign} built {d and d[:3]}, expected {(dim, system, flavor)}", c2)
                 continue
             bad = [f for f in L.field_names(system) if [float(x) for x in d[3].get(f, [])] != expect[origin[f]]]
+            if not bad and "extra" in cname and [int(x) for x in d[3].get("nhits", [])] != [3, 0, 7]:
+                bad = ["nhits"]
+                expect = dict(expect, nhits=[3, 0, 7])
+                origin = dict(origin, nhits="nhits")
+                assign = dict(assign, nhits="ndarray[u1]")
             if bad:
                 f = bad[0]
                 res.violation(key, f"{cname} with columns {assign}: coordinate {f} holds {d[3].get(f)}, supplied {expect[origin[f]]} (as {assign[origin[f]]})", c2)
